@@ -181,10 +181,12 @@ class MolGraph:
         :param atom: Atom ID
         :raises: KeyError if atom is not in graph.
         """
+        if atom not in self._atom_attrs:
+            raise KeyError(atom)
+        for n in tuple(self._neighbors.get(atom, ())):
+            self.remove_bond(atom, n)
+        self._neighbors.pop(atom, None)
         del self._atom_attrs[atom]
-        if nbr := self._neighbors.pop(atom, None):
-            for n in nbr:
-                self.remove_bond(atom, n)
 
     def get_atom_attribute(self, atom: AtomId, attr: str) -> Optional[Any]:
         """
